@@ -63,7 +63,7 @@ SPEC = {
         "loop); `recv false` is the unchanged code and is what C02_recv_bound_refuted speaks about",
         "on the current-thread runtime spawned tasks run in spawn order (the FIFO hypothesis holds: strict validation); "
         "on multi-thread runtimes the validator checks the permutation guarantee only "
-        "(C02_unordered_is_permutation) and the oracle reports the reordering as class c02-write-reorder-multithread",
+        "(C02_unordered_is_permutation); the reordering it used to show (class c02-write-reorder-multithread) was repaired by 3d926256 and is a violation again",
         "usize lengths are nat (no overflow: a Vec cannot exceed isize::MAX); bytes - buf.len() cannot underflow "
         "inside `while buf.len() < bytes`",
         "no socket is closed during a script / scenario (close only removes the session mapping); the accept of an "
